@@ -200,4 +200,20 @@ Proof.
   split; [exact H32 | exact HQ3].
 Qed.
 
+(* the same from the start of the reliable part of a run (the bookkeeping is [fa_init]): the channels are
+   empty there iff nothing is tracked *)
+Theorem orderly_close_reliable T0 : forall evs1 evs2 st st_m st',
+  reliable_schedule Dt Da st (evs1 ++ NClose SB :: evs2) ->
+  close_start T0 (fa_init Dt Da st) st -> Forall (cl_ev SA false) evs1 ->
+  net_run st evs1 = Ok st_m -> T0 + 2 * Dt < net_now st_m SA ->
+  net_run st_m (NClose SB :: evs2) = Ok st' ->
+  net_now st_m SA + 3 * Dt + tcp_CLOSE_DELAY < net_now st' SA ->
+  exists pre post st_c,
+    evs2 = pre ++ post /\ net_run st_m (NClose SB :: pre) = Ok st_c /\ net_run st_c post = Ok st' /\
+    both_closed st_c.
+Proof.
+  intros evs1 evs2 st st_m st' ((_ & _ & _ & Hf) & Ho) Hs HE H1 Hp1 H2 Hp2.
+  exact (orderly_close_completes T0 evs1 evs2 _ st st_m st' Hs HE Hf Ho H1 Hp1 H2 Hp2).
+Qed.
+
 End Close.
